@@ -515,7 +515,7 @@ def _namespace_tables(tree):
     return t
 
 
-_SERIALIZER_KEYS = ("encoderClasses", "literalTypes", "unconditionalClasses", "instructionMethods",
+_SERIALIZER_KEYS = ("encoderClasses", "decoderClasses", "parserClasses", "literalTypes", "unconditionalClasses", "instructionMethods",
                     "atParseMethods", "encoderTags", "decoderTags", "decoderCompatTags", "encoderConditions",
                     "decoderConditions", "readerPhases", "readerSteps")
 
@@ -599,6 +599,9 @@ def _serializer_tables(tree, problems):
     t = {}
     t["encoderClasses"] = _class_list(tree, "EncoderSelector", "classes")
     decoder_classes = _class_list(tree, "DecoderSelector", "classes")
+    # the selection orders of the reader: the statement-level reader model (Kernels/SerialRead.lean) dispatches over them
+    t["decoderClasses"] = decoder_classes
+    t["parserClasses"] = _class_list(tree, "ParserSelector", "classes")
     t["literalTypes"] = _class_list(tree, "LiteralEncoder", "literal_types")
 
     # the `condition` of every selector class, as normalised source text
@@ -731,6 +734,9 @@ def render(t):
         "def dynRefsOrder : List String := " + _lean_str_list(t["dynRefsOrder"]),
         "/-- serializer_6.py: EncoderSelector.classes, in selection order -/",
         "def encoderClasses : List String := " + _lean_str_list(t["encoderClasses"]),
+        "/-- DecoderSelector.classes / ParserSelector.classes, in selection order (used by the reader model) -/",
+        "def decoderClasses : List String := " + _lean_str_list(t["decoderClasses"]),
+        "def parserClasses : List String := " + _lean_str_list(t["parserClasses"]),
         "/-- LiteralEncoder.literal_types -/",
         "def literalTypes : List String := " + _lean_str_list(t["literalTypes"]),
         "/-- selector classes whose `condition` is `return True` -/",
